@@ -119,6 +119,7 @@ static struct AcquireRuntime* g_rt;
 static struct AcquireProperties g_props;
 static int g_cfg_cam[2] = { -1, -1 }, g_cfg_sto[2] = { -1, -1 };
 static uint64_t g_cfg_n[2];
+static uint64_t g_run_n[2];      // max_frame_count in force for the acquisition in progress (a configure between its end and stop does not change it)
 static int g_cfg_avg[2];
 static unsigned long g_oracle_fails;
 static int g_acq_open; // an acquisition was started and neither stop nor abort has returned yet
@@ -137,13 +138,19 @@ static void reporter(int is_error, const char* file, int line, const char* funct
     (void)is_error; (void)file; (void)line; (void)function; (void)msg;
 }
 
+// the client called acquire_configure while an acquisition was running (a known finding: the storage is re-armed behind the
+// sink's back and its driver is never stopped); every oracle message of such a program carries this cause, so that the listed
+// consequences are told apart from anything else that goes wrong there
+static int g_cfg_while_running;
+
 static void oracle(const char* fmt, ...)
 {
-    char buf[320];
+    char buf[384];
     va_list ap;
     va_start(ap, fmt);
-    vsnprintf(buf, sizeof buf, fmt, ap);
+    vsnprintf(buf, sizeof buf - 40, fmt, ap);
     va_end(ap);
+    if (g_cfg_while_running && !strstr(buf, " cause=")) strcat(buf, " cause=configure-while-running");
     printf("ORACLE %s\n", buf);
     ++g_oracle_fails;
 }
@@ -202,7 +209,7 @@ static void check_acquisition(const char* how)
         if (bad_payload) oracle("stored-frame-payload-differs stream=%d how=%s bad=%d", s, how, bad_payload);
         if (bad_shape) oracle("stored-frame-type-not-f32 stream=%d", s);
         if (!strcmp(how, "stop") && !sd->failed && !cd->failed) {
-            if (delivered != g_cfg_n[s]) oracle("camera-delivered-%lu-of-%llu stream=%d", delivered, (unsigned long long)g_cfg_n[s], s);
+            if (delivered != g_run_n[s]) oracle("camera-delivered-%lu-of-%llu stream=%d", delivered, (unsigned long long)g_run_n[s], s);
             if ((unsigned long)n < want_min || (unsigned long)n > want_max)
                 oracle("stored-%d-frames-expected-%lu..%lu delivered=%lu k=%d stream=%d how=stop", n, want_min, want_max, delivered, k, s);
         } else {
@@ -227,7 +234,7 @@ static void check_devices(const char* when)
         if (m->double_close) oracle("device-%d-closed-twice (%s)", d, when);
         if (m->double_open) oracle("device-%d-opened-twice-without-close (%s)", d, when);
         if (m->closed_while_running) oracle("device-%d-closed-while-running (%s)", d, when);
-        if (m->start_while_running) oracle("device-%d-started-while-running (%s)", d, when);
+        if (m->start_while_running) oracle("%s-device-%d-started-while-running (%s)", d == 2 || d == 3 || d == 5 ? "storage" : "camera", d, when);
         if (m->stop_without_start) oracle("device-%d-stopped-without-start n=%u (%s)", d, m->stop_without_start, when);
         if (m->frame_outside_running) oracle("device-%d-get_frame-outside-running (%s)", d, when);
         if (m->append_outside_running) oracle("device-%d-append-outside-running (%s)", d, when);
@@ -344,6 +351,7 @@ static void exec_client(const char* op)
         g_cfg_n[s] = pv->max_frame_count; g_cfg_avg[s] = (int)pv->frame_average_count;
         if (g_cfg_cam[s] >= 0) g_cam_type[g_cfg_cam[s]] = (int)pv->camera.settings.pixel_type;
     } else if (!strcmp(op, "configure")) {
+        if (acquire_get_state(g_rt) == DeviceState_Running) { g_cfg_while_running = 1; g_run_n[0] = g_cfg_n[0]; g_run_n[1] = g_cfg_n[1]; }
         enum AcquireStatusCode rc = acquire_configure(g_rt, &g_props);
         printf("API configure -> %s valid=%d state=%s\n", rc == AcquireStatus_Ok ? "ok" : "err", (int)rt()->valid_video_streams,
                device_state_as_string(acquire_get_state(g_rt)));
@@ -356,6 +364,7 @@ static void exec_client(const char* op)
                     g_cam_of_sto[g_cfg_sto[s]] = g_cfg_cam[s];
                     g_camrun_of_sto[g_cfg_sto[s]] = mock_dev(g_cfg_cam[s])->run + 1;
                     g_avg_of_sto[g_cfg_sto[s]] = g_cfg_avg[s];
+                    g_run_n[s] = g_cfg_n[s];
                 }
         enum AcquireStatusCode rc = acquire_start(g_rt);
         if (rc == AcquireStatus_Ok) g_acq_open = 1;
@@ -430,6 +439,7 @@ static void exec_client(const char* op)
 static void body(void* arg)
 {
     (void)arg;
+    g_cfg_while_running = 0;
     g_rt = acquire_init(reporter);
     if (!g_rt) { printf("API init -> err\n"); return; }
     acquire_get_configuration(g_rt, &g_props);
